@@ -65,6 +65,10 @@ type scenario struct {
 	mu       sync.Mutex
 	hookCfg  map[*centrifuge.Client]*connHooks
 	racerRan atomic.Int64
+	// forceDrop > 0: the fault broker drops the PUB/SUB delivery of the next publication(s)
+	forceDrop atomic.Int32
+	lossBurst bool // this case drives a loss burst into every recovery's window (see hook)
+	bursts    atomic.Int64
 }
 
 type connHooks struct {
@@ -147,6 +151,25 @@ func (s *scenario) hook(point string, cl *centrifuge.Client, ch string) {
 			}
 		}
 		return
+	}
+	if point == "sub.afterRecover" && s.lossBurst {
+		// Directly after the history read of a subscribe (no lock is held here): one publication
+		// whose PUB/SUB delivery is lost, then one that the tags filter "a" withholds (for an
+		// unfiltered subscriber it is simply the next one), then sometimes one more. The buffer then
+		// holds what follows the lost publication; a filtered neighbour must not hide the hole.
+		s.mu.Lock()
+		done := cfg.raced["burst"]
+		cfg.raced["burst"] = true
+		s.mu.Unlock()
+		if !done {
+			s.forceDrop.Store(1)
+			s.publish(fmt.Sprintf("lost%d", cfg.idx), "a")
+			s.publish(fmt.Sprintf("marker%d", cfg.idx), "b")
+			if cfg.salt%4 == 0 { // mostly the withheld publication is the last thing in the buffer
+				s.publish(fmt.Sprintf("after%d", cfg.idx), "a")
+			}
+			s.bursts.Add(1)
+		}
 	}
 	switch point {
 	case "sub.afterAddSub", "sub.afterRecover", "sub.beforeReply", "sub.afterReply", "sub.afterCommit", "connect.afterAddClient", "connect.beforeReply", "connect.afterReply", "ssub.beforeCommit", "ssub.afterCommit":
@@ -366,6 +389,10 @@ func RunCase(c *kit.Case, opt Options) {
 		removeHistoryAfter = time.Duration(r.Range(5, 80)) * time.Millisecond
 	}
 	asyncSubscribe := r.Chance(1, 3)
+	s.lossBurst = c.Index%6 == 5
+	if s.lossBurst {
+		useFilter = true
+	}
 
 	specs := make([]*connSpec, nConn)
 	for i := range specs {
@@ -376,6 +403,9 @@ func RunCase(c *kit.Case, opt Options) {
 		cs.recovery = r.Chance(2, 3)
 		if useFilter && cs.kind == "client" && r.Bool() {
 			cs.filter = "a"
+		}
+		if s.lossBurst && cs.kind == "client" && i%2 == 0 {
+			cs.filter, cs.recovery = "a", true
 		}
 		specs[i] = cs
 	}
@@ -410,6 +440,10 @@ func RunCase(c *kit.Case, opt Options) {
 	node, _ := w.NewNode(cfg, func(n *centrifuge.Node) {
 		s.fb = kit.NewFaultBroker(w, n)
 		s.fb.Plan = func(ch string, pub *centrifuge.Publication, sp centrifuge.StreamPosition) kit.FaultAction {
+			if s.forceDrop.Load() > 0 && s.forceDrop.Add(-1) >= 0 {
+				faultCount.Add(1)
+				return kit.Drop
+			}
 			if !faultsOn.Load() || faultMode == "none" {
 				return kit.Pass
 			}
@@ -749,6 +783,7 @@ func RunCase(c *kit.Case, opt Options) {
 		c.Count("incarnations_"+v.Inc.Kind, 1)
 	}
 	c.Count("racer_publishes", int(s.racerRan.Load()))
+	c.Count("loss_bursts_after_history_read", int(s.bursts.Load()))
 	c.Count("faults_injected", int(faultCount.Load()))
 	c.Count("publishes", nOK)
 	if len(views) > 0 {
